@@ -402,6 +402,33 @@ def bool_operand_lane(ctx, rng, select, keys_fn, extra_case=None, profile=None):
     return n
 
 
+def in_list_shape_lane(ctx, rng, select, keys_fn, extra_case=None, profile=None):
+    """in-lists whose items have a SHAPE a renderer may recognise - consecutive integers (any
+    order, repeats), runs with one gap, two items, one item, halves - against operands that lie
+    between the items (float / decimal columns, float arithmetic) as well as on them: membership
+    is not an interval."""
+    a, f, m = T.ident("a"), T.ident("f"), T.ident("m")
+    lists = [(1, 2, 3), (0, 1, 2, 3), (3, 1, 2), (1, 2, 2, 3), (1, 3), (1, 2), (-1, 0, 1), (2, 3, 4, 5, 6, 7, 8), (1, 2, 3, 5),
+             (-2, -1), (7,), (0, 1), (-3, -2, -1, 0, 1, 2, 3)]
+    lefts = [f, a, ("bin", "div", a, T.lit("float", "2.0")), ("bin", "mul", a, T.lit("float", "0.5")),
+             ("bin", "add", f, T.lit("float", "0.5")), m, ("bin", "sub", f, T.I(1))]
+    n = 0
+    for items in lists:
+        for kind in ("int", "float"):
+            lst = T.lst(*[T.I(i) if kind == "int" else T.lit("float", "%d.0" % i) for i in items])
+            for l in lefts:
+                e = ("cmp", "in", l, lst)
+                for t in (e, ("un", "not", e), ("bool", "or", e, ("cmp", "eq", T.ident("c"), T.I(2)))):
+                    if profile is not None and not scalar.conforms(t, profile):
+                        continue
+                    n += 1
+                    if not ctx.mine(n):
+                        continue
+                    ctx.count("in_list_shape_filters")
+                    _judge(ctx, t, rng, select, keys_fn, "in-list-shapes", True, 200, extra_case, profile)
+    return n
+
+
 def big_list_lane(ctx, rng, select, keys_fn, n, extra_case=None, profile=None, sizes=(33, 257, 1001, 1500)):
     """Long in-lists as operands of and / or / not / eq, the values that decide the rows
     placed first, last or in the middle of the padding (a translation that chunks, sorts or
